@@ -1,18 +1,51 @@
 import ScrutModel.Lemmas.Namer
+import ScrutModel.Lemmas.Environment
 /-!
-# C18 — Per-document work directory, documented environment, complete clean-up (PARTIAL)
+# C18 — Per-document work directory, documented environment, complete clean-up
 
-What is a theorem here: the bookkeeping of `UniqueNamer` (src/bin/utils/namer.rs) — for any
-sequence of requested directory names (also identical ones) and any state of the disk, the names
-handed out are pairwise distinct, were not handed out before and do not exist on disk.
-Everything else the property speaks about — that `TempDir` really creates fresh directories and
-removes them on drop for every outcome class, the environment variables a test sees, concurrent
-scrut processes — is operating-system and `Drop` behaviour; it is exercised end-to-end by the
-harness on every run (directory listings after the run, `pwd`/`env` probes inside tests) and is
-not proved.
+Theorems about two hand-written models:
+
+* `Model/Namer.lean` — `UniqueNamer` (src/bin/utils/namer.rs);
+* `Model/Environment.lean` — `TestEnvironment::new`, `init_test_file` (`build_work_directory`,
+  `build_env_vars`, `create_random_sub_directory`) and `Drop` of src/bin/utils/environment.rs,
+  the life cycle `scrut test` gives the environment (src/bin/commands/test.rs: ONE
+  `TestEnvironment` PER DOCUMENT — created in the loop body, dropped when the body ends, also when
+  it is left early by `?`/`bail!`), and the insertion of `SCRUT_TEST` (stateful_executor.rs).
+
+The file system is the set of existing paths; a document brings along the directories its test
+cases create below their working directory and below `$TMPDIR` (`Doc.mkWork`, `Doc.mkTmp`), so the
+clean-up statements are about whole subtrees.
+
+## What is assumed (not proved)
+
+* **`tempfile` picks a free name** (`Fresh`): nothing exists at or below the directory it creates.
+  Nothing else is assumed about the random part; in particular a name may come back after its
+  directory was removed. That is why, in the default mode, the theorem is "the work directory of a
+  document does not exist — nor anything below it — when the document's turn begins (and did not
+  exist before the run)" and not "the paths are pairwise different": with one environment per
+  document the directory of an earlier document is already gone when the next one is created.
+  With `--keep-temporary-directories` the directories stay, and the paths ARE pairwise different.
+* **`TempDir::drop` = `remove_dir_all` removes the whole subtree and nothing else** (`removeTree`).
+* **Drop runs.** The model covers every way `TestCommand::run` returns: normal end, `?` on a
+  missing shell, `?` on an unparsable prepended/appended document, `bail!` on an execution error,
+  parse error before the loop. `std::process::exit`, `abort`, signals and a panic with
+  `panic=abort` are NOT covered; nor are failures of the OS calls themselves (disk full,
+  permissions). The end-to-end stream of the harness observes real runs of the binary for every
+  outcome class and compares directory listings and variables with this model.
+* The test cases of a document only create directories below their working directory and below
+  `$TMPDIR`. Canonicalisation of the document's directory (`split_path_abs`) is the OS's.
+
+## Open finding kept visible
+
+`C18_workdirs_shared_under_work_directory`: with `--work-directory d` every document runs in `d`
+itself (`EnvironmentDirectory::UserProvided(path) => path.into()`), so the documents of a run share
+their work directory. This is the known finding `C18:workdir-shared-under-work-directory`; the
+property's "no other document shares" is a theorem only without the flag (`C18_workdirs_distinct`).
 -/
 namespace Scrut.Props.C18
-open Scrut.Namer
+open Scrut.Namer Scrut.Environment
+
+/-! ## the namer -/
 
 /-- **C18** (directory names): names handed out for any request sequence are pairwise distinct,
 new, and absent from the disk; one name per request. -/
@@ -37,10 +70,253 @@ theorem C18_next_name_terminates (names ex : List Name) (name : Name) :
     ∃ r, nextName names (fun x => ex.contains x) (names.length + ex.length + 1) name = some r :=
   nextName_terminates names ex name
 
-/-! Non-vacuity: the same file name requested three times next to an existing `t.md-1`. -/
+/-! ## the model never gets stuck, `new` fails only for a missing parent directory -/
+
+/-- for every configuration, file system, oracle and list of documents the command returns
+(the counter loop of the namer always finds a name within the fuel the model gives it) -/
+theorem C18_run_total (cfg : Cfg) (fresh : Oracle) (parseOk : Bool) (fs0 : FS) (docs : List Doc) :
+    ∃ R, runCommand cfg fresh parseOk fs0 docs = some R :=
+  runCommand_total cfg fresh parseOk fs0 docs
+
+/-- `TestEnvironment::new` fails only because the directory it should create a temporary directory
+in does not exist, and then nothing was created (`create_dir(__tmp)` cannot hit an existing path) -/
+theorem C18_new_fails_only_without_parent (fresh : Oracle) (hF : Fresh fresh) (tmpRoot : Path)
+    (shell : List Char) (provided : Option Path) (keep : Bool) (fs fs' : FS) (e : NewError)
+    (h : new fresh tmpRoot shell provided keep fs = .error e fs') : fs' = fs ∧ e = .noParent :=
+  new_error hF h
+
+/-- which `EnvironmentDirectory` variant and which path each directory gets, per mode (`ModeShape`),
+that every directory scrut makes for a document is fresh (nothing at or below it existed when the
+document's turn began) and exists while its test cases run, and that the file system after the
+document's turn is `drop` applied to the one its test cases left -/
+theorem C18_created_fresh (cfg : Cfg) (fresh : Oracle) (hF : Fresh fresh) (parseOk : Bool) (fs0 : FS)
+    (docs : List Doc) (R : Run) (h : runCommand cfg fresh parseOk fs0 docs = some R) :
+    ∀ r ∈ R.runs, ModeShape cfg.tmpRoot cfg.provided cfg.keep r.env ∧
+      ∀ c ∈ r.scrutCreated, c ∈ r.fsDuring ∧ (∀ q ∈ r.fsBefore, below c q = false) ∧
+        r.fsAfter = drop r.env r.fsDuring :=
+  created_fresh hF h
+
+/-! ## work directories -/
+
+/-- **C18** (one work directory per document, shared with no other): without `--work-directory`
+the work directory of every document exists while its test cases run, and neither it nor anything
+below it existed when the document's turn began, nor before the run — so nothing an earlier
+document (or anybody else) left is in it. With `--keep-temporary-directories`, where the
+directories of earlier documents are still there, the paths are pairwise different.
+(`cfg.keep = true` makes `new` ignore `--work-directory`; the command line forbids the combination.) -/
+theorem C18_workdirs_distinct (cfg : Cfg) (fresh : Oracle) (hF : Fresh fresh)
+    (hmode : cfg.keep = true ∨ cfg.provided = none) (parseOk : Bool) (fs0 : FS) (docs : List Doc) (R : Run)
+    (h : runCommand cfg fresh parseOk fs0 docs = some R) :
+    (∀ r ∈ R.runs, ∀ wd, r.workDir = some wd →
+      wd ∈ r.fsDuring ∧ (∀ q ∈ r.fsBefore, below wd q = false) ∧ (∀ q ∈ fs0, below wd q = false)) ∧
+    (cfg.keep = true → (R.runs.filterMap (·.workDir)).Pairwise (· ≠ ·)) :=
+  workdirs_distinct hF hmode h
+
+/-- **OPEN FINDING `C18:workdir-shared-under-work-directory`, as the theorem it is**: with
+`--work-directory d` every document of the run has the work directory `d` — the documents share it. -/
+theorem C18_workdirs_shared_under_work_directory (cfg : Cfg) (fresh : Oracle) (hF : Fresh fresh)
+    (hk : cfg.keep = false) (d : Path) (hp : cfg.provided = some d) (parseOk : Bool) (fs0 : FS)
+    (docs : List Doc) (R : Run) (h : runCommand cfg fresh parseOk fs0 docs = some R) :
+    ∀ r ∈ R.runs, ∀ wd, r.workDir = some wd → wd = d :=
+  workdirs_shared hF hk hp h
+
+/-- several documents initialised in ONE environment (what the API of `TestEnvironment` allows and
+what the namer is for): their work directories are pairwise different, did not exist before and
+exist afterwards, for any file names (also identical ones) and any file system; nothing is removed -/
+theorem C18_workdirs_distinct_one_environment (docs : List Doc) (env env' : Env) (fs fs' : FS)
+    (out : List (Path × Vars)) (hk : env.work.kind ≠ .userProvided)
+    (h : initTestFiles docs env fs = some (out, env', fs')) :
+    (∀ o ∈ out, ∃ n, o.1 = env.work.path ++ [n] ∧ n ∉ env.names ∧ o.1 ∉ fs ∧ o.1 ∈ fs') ∧
+    (out.map (·.1)).Pairwise (· ≠ ·) ∧ out.length = docs.length ∧ (∀ p ∈ fs, p ∈ fs') :=
+  initTestFiles_spec docs env fs out env' fs' hk h
+
+theorem C18_init_test_files_total (docs : List Doc) (env : Env) (fs : FS) :
+    ∃ r, initTestFiles docs env fs = some r :=
+  initTestFiles_total docs env fs
+
+/-! ## clean-up -/
+
+/-- **C18** (clean-up, no flag): when the command returns — whichever way — the file system is
+exactly the one before the run; the same holds after every single document; every directory scrut
+or the test cases made existed in between and did not exist before. -/
+theorem C18_cleanup_default (cfg : Cfg) (fresh : Oracle) (hF : Fresh fresh) (hk : cfg.keep = false)
+    (hp : cfg.provided = none) (parseOk : Bool) (fs0 : FS) (docs : List Doc) (R : Run)
+    (h : runCommand cfg fresh parseOk fs0 docs = some R) :
+    R.fs = fs0 ∧ ∀ r ∈ R.runs, r.fsBefore = fs0 ∧ r.fsAfter = fs0 ∧
+      ∀ p, p ∈ r.scrutCreated ∨ p ∈ r.testsCreated → p ∈ r.fsDuring ∧ p ∉ fs0 :=
+  cleanup_default hF hk hp h
+
+/-- **C18** (clean-up, `--work-directory d`): everything that existed before the run — `d` itself
+included — is still there; whatever else is there afterwards was made by the test cases in `d`
+(nothing scrut made is left); the `temp.XXXX` of a document lies directly in `d`, is new, exists
+while its test cases run, and nothing at or below it exists once the document's turn is over. -/
+theorem C18_cleanup_work_directory (cfg : Cfg) (fresh : Oracle) (hF : Fresh fresh) (hk : cfg.keep = false)
+    (d : Path) (hp : cfg.provided = some d) (parseOk : Bool) (fs0 : FS) (docs : List Doc) (R : Run)
+    (h : runCommand cfg fresh parseOk fs0 docs = some R) :
+    (∀ p ∈ fs0, p ∈ R.fs) ∧
+    (∀ p ∈ R.fs, p ∈ fs0 ∨ ∃ r ∈ R.runs, ∃ rel ∈ r.doc.mkWork, p = d ++ rel) ∧
+    ∀ r ∈ R.runs, r.env.work = ⟨.userProvided, d⟩ ∧ r.env.tmp.kind = .ephemeral ∧
+      (∃ n, r.env.tmp.path = d ++ [n]) ∧ r.env.tmp.path ∈ r.fsDuring ∧
+      (∀ q ∈ r.fsBefore, below r.env.tmp.path q = false) ∧
+      ∀ p ∈ r.fsAfter, below r.env.tmp.path p = false :=
+  cleanup_work_directory hF hk hp h
+
+/-- **C18** (`--keep-temporary-directories`): exactly what existed before plus what scrut and the
+test cases made remains; dropping an environment removes nothing. -/
+theorem C18_cleanup_keep (cfg : Cfg) (fresh : Oracle) (hF : Fresh fresh) (hk : cfg.keep = true)
+    (parseOk : Bool) (fs0 : FS) (docs : List Doc) (R : Run)
+    (h : runCommand cfg fresh parseOk fs0 docs = some R) :
+    (∀ p, p ∈ R.fs ↔ p ∈ fs0 ∨ ∃ r ∈ R.runs, p ∈ r.scrutCreated ∨ p ∈ r.testsCreated) ∧
+    ∀ r ∈ R.runs, r.fsAfter = r.fsDuring ∧ r.env.work.kind = .kept ∧ r.env.tmp.kind = .kept :=
+  cleanup_keep hF hk h
+
+/-- in every mode: nothing that existed before the run is ever removed -/
+theorem C18_preexisting_untouched (cfg : Cfg) (fresh : Oracle) (hF : Fresh fresh) (parseOk : Bool)
+    (fs0 : FS) (docs : List Doc) (R : Run) (h : runCommand cfg fresh parseOk fs0 docs = some R) :
+    (∀ p ∈ fs0, p ∈ R.fs) ∧ ∀ r ∈ R.runs, ∀ p ∈ fs0, p ∈ r.fsBefore ∧ p ∈ r.fsDuring ∧ p ∈ r.fsAfter :=
+  preexisting_untouched hF h
+
+/-! ## environment variables -/
+
+/-- **C18** (names): `build_env_vars` binds exactly the documented names (plus the three Cram ones in
+Cram compatibility mode), in this order; all of them and `SCRUT_TEST` are different names, so each
+is bound exactly once. -/
+theorem C18_env_var_names (doc : Doc) (env : Env) :
+    (buildEnvVars doc env).map Prod.fst = documentedNames ++ (if doc.cram then cramNames else []) ∧
+    (documentedNames ++ cramNames ++ [vSCRUT_TEST]).Nodup :=
+  ⟨buildEnvVars_names doc env, names_nodup⟩
+
+/-- **C18** (values): `TESTDIR` is the directory of the document, `TESTFILE` its file name,
+`TMPDIR` the environment's temporary directory, `TESTSHELL` the shell; the constants. -/
+theorem C18_env_var_values (doc : Doc) (env : Env) :
+    (buildEnvVars doc env).lookup vTESTDIR = some (render doc.dir) ∧
+    (buildEnvVars doc env).lookup vTESTFILE = some doc.file ∧
+    (buildEnvVars doc env).lookup vTMPDIR = some (render env.tmp.path) ∧
+    (buildEnvVars doc env).lookup vTESTSHELL = some env.shell ∧
+    (buildEnvVars doc env).lookup vLANG = some ['C'] ∧
+    (buildEnvVars doc env).lookup vLANGUAGE = some ['C'] ∧
+    (buildEnvVars doc env).lookup vLC_ALL = some ['C'] ∧
+    (buildEnvVars doc env).lookup vTZ = some ['G', 'M', 'T'] ∧
+    (buildEnvVars doc env).lookup vCOLUMNS = some ['8', '0'] ∧
+    (buildEnvVars doc env).lookup vCDPATH = some [] ∧
+    (buildEnvVars doc env).lookup vGREP_OPTIONS = some [] :=
+  buildEnvVars_values doc env
+
+theorem C18_env_var_values_cram (doc : Doc) (env : Env) (hc : doc.cram = true) :
+    (buildEnvVars doc env).lookup vCRAMTMP = some (render env.work.path) ∧
+    (buildEnvVars doc env).lookup vTMP = some (render env.tmp.path) ∧
+    (buildEnvVars doc env).lookup vTEMP = some (render env.tmp.path) :=
+  buildEnvVars_cram_values doc env hc
+
+/-- **C18** (set afresh per document): the documents that get an environment are an initial
+segment of the given ones, in order; the variables of a document are `build_env_vars` of THAT
+document and of ITS OWN environment (nothing of an earlier document enters), the shell is the
+configured one, and `TMPDIR` is a directory this run made for this document: it exists while the
+test cases run and neither it nor anything below it existed when the document's turn began. -/
+theorem C18_env_vars_per_document (cfg : Cfg) (fresh : Oracle) (hF : Fresh fresh) (parseOk : Bool)
+    (fs0 : FS) (docs : List Doc) (R : Run) (h : runCommand cfg fresh parseOk fs0 docs = some R) :
+    R.runs.map (·.doc) <+: docs ∧
+    ∀ r ∈ R.runs, r.env.shell = cfg.shell ∧ r.env.tmp.path ∈ r.fsDuring ∧
+      (∀ q ∈ r.fsBefore, below r.env.tmp.path q = false) ∧
+      (r.workDir.isSome = true → r.vars = buildEnvVars r.doc r.env) :=
+  env_vars_per_document hF h
+
+/-- **C18** (`SCRUT_TEST`, Markdown executor): whatever the variables were, every test case gets
+`SCRUT_TEST=<file>:<line>` exactly once and all other variables unchanged. -/
+theorem C18_scrut_test (vars : Vars) (file : List Char) (line : Nat) :
+    (testCaseVars vars file line).lookup vSCRUT_TEST = some (scrutTestValue file line) ∧
+    ((testCaseVars vars file line).map Prod.fst).count vSCRUT_TEST = 1 ∧
+    ∀ k, k ≠ vSCRUT_TEST → (testCaseVars vars file line).lookup k = vars.lookup k :=
+  testCaseVars_spec vars file line
+
+/-! ## Non-vacuity -/
+
+/-- the contract of the oracle is satisfiable: `longFresh` keeps it -/
+theorem C18_fresh_satisfiable : Fresh longFresh := longFresh_fresh
+
+/-! the same file name requested three times next to an existing `t.md-1` -/
 example : nextNames (fun n => n == "t.md-1".toList) 10 [] ["t.md".toList, "t.md".toList, "t.md".toList]
     = some ["t.md".toList, "t.md-2".toList, "t.md-3".toList] := by
   simp [nextNames, nextName, taken, search, withCounter]
+  decide
+
+def tmp : Name := ['t', 'm', 'p']
+def usr : Name := ['u', 's', 'r']
+def old : Name := ['o', 'l', 'd']
+def da : Name := ['a']
+def db : Name := ['b']
+def docMd : Name := ['d', 'o', 'c', '.', 'm', 'd']
+def sub : Name := ['s']
+def sh : List Char := ['/', 's', 'h']
+/-- `/tmp`, `/usr` with an old entry, two document directories -/
+def fs0 : FS := [[], [tmp], [usr], [usr, old], [da], [db]]
+/-- two documents with the SAME file name in different directories; both create `s` below their
+working directory and below `$TMPDIR` -/
+def twoDocs : List Doc :=
+  [⟨[da], docMd, false, [[sub]], [[sub]], .completes⟩, ⟨[db], docMd, true, [[sub]], [[sub]], .completes⟩]
+def cfgDefault : Cfg := ⟨[tmp], sh, none, false⟩
+def cfgWork : Cfg := ⟨[tmp], sh, some [usr], false⟩
+def cfgKeep : Cfg := ⟨[tmp], sh, none, true⟩
+def X (pre : Name) (n : Nat) : Name := pre ++ List.replicate n 'x'
+
+/-- default mode: both documents run, in `/tmp/execution.…/doc.md`; afterwards the file system is
+the initial one -/
+example : (runCommand cfgDefault longFresh true fs0 twoDocs).map
+      (fun R => (R.runs.map (·.workDir), R.fs, R.finished)) =
+    some ([some [tmp, X pfxExecution 4, docMd], some [tmp, X pfxExecution 4, docMd]], fs0, true) := by
+  decide
+
+/-- what the test cases of the first document see: six new directories on top of the initial ones -/
+example : (runCommand cfgDefault longFresh true fs0 twoDocs).map (fun R => (R.runs.map (·.fsDuring)).head?) =
+    some (some ([[tmp, X pfxExecution 4, nameTmp, sub], [tmp, X pfxExecution 4, docMd, sub],
+      [tmp, X pfxExecution 4, docMd], [tmp, X pfxExecution 4, nameTmp], [tmp, X pfxExecution 4]] ++ fs0)) := by
+  decide
+
+/-- `--work-directory /usr`: both documents run in `/usr`; `/usr/old` is kept, `/usr/temp.…` is gone,
+what the test cases made in `/usr` stays -/
+example : (runCommand cfgWork longFresh true fs0 twoDocs).map
+      (fun R => (R.runs.map (·.workDir), R.runs.map (·.env.tmp.path))) =
+    some ([some [usr], some [usr]], [[usr, X pfxTemp 4], [usr, X pfxTemp 4]]) := by
+  decide
+
+example : (runCommand cfgWork longFresh true fs0 twoDocs).map (·.fs) = some ([[usr, sub], [usr, sub]] ++ fs0) := by
+  decide
+
+/-- `--keep-temporary-directories`: different `execution.…`/`temp.…` per document, everything stays -/
+example : (runCommand cfgKeep longFresh true fs0 twoDocs).map
+      (fun R => (R.runs.map (·.workDir), R.runs.map (·.env.tmp.path), R.fs.length)) =
+    some ([some [tmp, X pfxExecution 4, docMd], some [tmp, X pfxExecution 21, docMd]],
+      [[tmp, X pfxTemp 15], [tmp, X pfxTemp 32]], 16) := by
+  decide
+
+/-- an execution error in the first document: the second never runs, everything is removed -/
+example : (runCommand cfgDefault longFresh true fs0
+      [⟨[da], docMd, false, [[sub]], [], .execError⟩, ⟨[db], docMd, false, [], [], .completes⟩]).map
+      (fun R => (R.runs.length, R.fs, R.finished)) = some (1, fs0, false) := by
+  decide
+
+/-- a `--work-directory` that does not exist: nothing runs, nothing is created -/
+example : (runCommand ⟨[tmp], sh, some [old], false⟩ longFresh true fs0 twoDocs).map
+      (fun R => (R.runs.length, R.fs, R.finished)) = some (0, fs0, false) := by
+  decide
+
+/-- one environment, the same file name twice: `doc.md` and `doc.md-1` -/
+example : (initTestFiles twoDocs ⟨sh, ⟨.ephemeral, [tmp, da]⟩, ⟨.userProvided, [tmp, da, nameTmp]⟩, []⟩
+      [[tmp, da, nameTmp], [tmp, da], [tmp]]).map (fun r => r.1.map (·.1)) =
+    some [[tmp, da, docMd], [tmp, da, docMd ++ ['-', '1']]] := by
+  decide
+
+/-- the variables of the second (Cram) document in the default mode -/
+example : (runCommand cfgDefault longFresh true fs0 twoDocs).map (fun R => (R.runs.map (·.vars)).getLast?) =
+    some (some [(vTESTDIR, ['/', 'b']), (vTESTFILE, docMd),
+      (vTMPDIR, render [tmp, X pfxExecution 4, nameTmp]), (vTESTSHELL, sh), (vLANG, ['C']), (vLANGUAGE, ['C']),
+      (vLC_ALL, ['C']), (vTZ, ['G', 'M', 'T']), (vCOLUMNS, ['8', '0']), (vCDPATH, []), (vGREP_OPTIONS, []),
+      (vCRAMTMP, render [tmp, X pfxExecution 4]), (vTMP, render [tmp, X pfxExecution 4, nameTmp]),
+      (vTEMP, render [tmp, X pfxExecution 4, nameTmp])]) := by
+  decide
+
+example : testCaseVars [(vSCRUT_TEST, ['o']), (vLANG, ['C'])] ['a', '.', 'm', 'd'] 7 =
+    [(vSCRUT_TEST, ['a', '.', 'm', 'd', ':', '7']), (vLANG, ['C'])] := by
   decide
 
 end Scrut.Props.C18
